@@ -164,20 +164,27 @@ def forward_selection(tdesc: dict, S: list[str], I: list[str]) -> set[str]:
 
 
 def features(tr: dict) -> dict:
+    """Labels of a request for violation signatures (they classify, they never judge)."""
     tdesc = tr["desc"]
     I = [n for n, _ in tr["inputs"]]
     outs = {o for f in tdesc["funcs"] for o in f["outputs"]}
     roots = names_of(tdesc) - outs
     begin = next((e for e in tr["ev"] if e["e"] in ("begin", "reject")), None)
-    needed = set(begin["F"]) if begin and begin["F"] != ["*"] else None
-    feat = {"route": tr["route"], "must": tr["must"],
+    walk_needed, walk_roots = _closure(tdesc["funcs"], tr["S"], set(I))
+    needed = set(begin["F"]) if begin and begin["F"] != ["*"] else walk_needed
+    defaults = {p: {f["name"] for f in tdesc["funcs"] if p in {q for q, _ in f["defaults"]}} for p in roots}
+    filled = {p for p in walk_roots if p not in I and defaults.get(p)}
+    return {"route": tr["route"], "must": tr["must"],
             "cut": "root-only" if set(I) <= roots else "interior-only" if not (set(I) & roots) else "mixed",
             "nothing_provided": not I,
             "tuple_output": any(len(f["outputs"]) > 1 for f in tdesc["funcs"]),
-            "mapped": any(f["has_ms"] for f in tdesc["funcs"])}
-    if needed is not None:
-        feat["forward_selection_differs"] = forward_selection(tdesc, tr["S"], I) != needed
-    return feat
+            "mapped": any(f["has_ms"] for f in tdesc["funcs"]),
+            # the unrepaired selection descendants(I) & ancestors(S) is a different set of functions (F10)
+            "forward_selection_differs": forward_selection(tdesc, tr["S"], I) != needed,
+            # a root argument of the cut that is not provided gets its value from a default (F60) ...
+            "default_fills_cut_root": bool(filled),
+            # ... which only functions outside the needed set declare (F61)
+            "default_only_on_dropped_function": any(not (defaults[p] & needed) for p in filled)}
 
 
 def classify(tr: dict, reached: int) -> dict:
@@ -290,7 +297,7 @@ def mapped_case(seed: int) -> list[dict]:
     """Worker: a random mapped pipeline (gen_map); the full pipeline is run once to learn the array shapes of its
     intermediates (input generation only), then requests with supplied array intermediates are derived."""
     rng = random.Random(seed)
-    case = gen_map.random_map_case(rng, rng.randint(2, 5), allow_gen=False, allow_internal=False)
+    case = gen_map.random_map_case(rng, rng.randint(2, 5), max_rank=2, allow_gen=False, allow_internal=False)
     pdesc, inputs = case["desc"], case["inputs"]
     tdesc = desc_to_tla(pdesc)
     with contextlib.redirect_stdout(io.StringIO()):
@@ -302,7 +309,7 @@ def mapped_case(seed: int) -> list[dict]:
     rank = {s["name"]: len(s["axes"]) for f in tdesc["funcs"] for s in f["ms"]["ins"] + f["ms"]["outs"]}
     outs = [o for f in tdesc["funcs"] for o in f["outputs"]]
     jobs = []
-    for _ in range(3):
+    for k in range(3):
         S = rng.sample(outs, rng.choice([1, 1, 2]) if len(outs) > 1 else 1)
         inter = [o for o in outs if o not in S]
         given = set(rng.sample(inter, rng.randint(0, min(2, len(inter)))))
@@ -324,7 +331,7 @@ def mapped_case(seed: int) -> list[dict]:
                 sub_inputs.append([n, _fresh_array(n, shape)])
         kinds = {n: case["kinds"].get(n, "ndarray") for n, _ in sub_inputs}
         jobs.append({"desc": tdesc, "pdesc": pdesc, "S": sorted(S), "inputs": sub_inputs, "needed": ["*"], "must": "?",
-                     "cut": "?", "kinds": kinds})
+                     "cut": "?", "kinds": kinds, "routes": [ROUTES[(seed + k) % 3]]})
     out = []
     for j in jobs:
         for t in run_case(j):
@@ -356,6 +363,8 @@ def run(ctx: Ctx) -> None:
         stages[name] = round(time.time() - t0[0], 1)
         t0[0] = time.time()
     ctx.extra["stage_wall_s"] = stages
+    # many small single-worker TLC processes on a shared machine: keep each JVM's helper threads few
+    os.environ.setdefault("JDK_JAVA_OPTIONS", "-XX:ParallelGCThreads=2 -XX:CICompilerCount=2")
     ctx.rule = ("case = one request (description, requested outputs S, provided names I with values, route); descriptions "
                 "x S x I are ALL members of the TLA+-defined universe MC_SubPipeline (C02 generators: 2-3 functions over 3 "
                 "roots and earlier outputs, nullary functions, defaults, bound, shadowing bound, tuple output + all-bound and "
@@ -369,7 +378,7 @@ def run(ctx: Ctx) -> None:
                        "(tests pin 'Got extra inputs'); a provided output of a tuple-output function whose sibling is needed",
                        "a requested output that is itself provided is outside the universe (no stated meaning)"]
     if quick:
-        nsh = 8
+        nsh = 12
         shard = ctx.seed % nsh
         cases = export_universe(ctx, 2, False, [shard], nsh, workers=4)
         behaviours(ctx, 2, False, shard, nsh, workers=4)
@@ -404,9 +413,9 @@ def run(ctx: Ctx) -> None:
     stage("universe trace validation")
 
     # random larger DAGs (TLC computes the needed set)
-    rjobs = random_call_style_jobs(rng, 250 if quick else 4000)
+    rjobs = random_call_style_jobs(rng, 150 if quick else 4000)
     rtraces = run_jobs(rjobs)
-    mseeds = [rng.randrange(1 << 30) for _ in range(60 if quick else 1200)]
+    mseeds = [rng.randrange(1 << 30) for _ in range(40 if quick else 1200)]
     mtraces = random_mapped_traces(mseeds)
     for t in rtraces + mtraces:
         ctx.case({"d": t["desc"], "S": t["S"], "i": t["inputs"], "r": t["route"]}, nontrivial(t))
@@ -427,52 +436,54 @@ def run(ctx: Ctx) -> None:
 
 
 def selftest(ctx: Ctx, traces: list[dict]) -> None:
-    """Binding self-test: (1) one atom of one returned value altered, (2) one call of a function outside the needed set
-    inserted, (3) one needed-set export altered, (4) a rejection of a must-reject request that names a provided name
-    instead of the missing one: exactly the corrupted trace must be rejected each time."""
-    strip = STRIP
+    """Binding self-test, one TLC batch: accepted traces plus four corrupted copies - (1) one atom of one returned value
+    altered, (2) one call of a function outside the needed set inserted, (3) the exported needed set of one begin event
+    altered, (4) the rejection of a not-computable request made to name a provided name instead of the missing one.
+    Exactly the four corrupted copies must be rejected, each at the corrupted event."""
     good = [t for t in traces if t["ev"][-1]["e"] == "return" and t["ev"][-1]["results"] and t["must"] == "serve"][:8]
     rejs = [t for t in traces if t["ev"][-1]["e"] == "reject" and t["must"] == "reject" and not t["dontcare"]
             and t["inputs"]][:4]
-    pool = copy.deepcopy(good + rejs)
     if len(good) < 4 or not rejs:
         raise MachineryError("self-test: not enough served / rejected traces")
-    base = validate_traces(ctx, "MC_SubPipeline", copy.deepcopy(pool), "st0", invariants=[], strip=strip, count=False,
-                           constants=TRACE_CONSTANTS)
-    ctx.selftest("baseline(selected traces accepted)", base == {}, f"rejected={base}")
+    pool = copy.deepcopy(good + rejs)
+    expected: dict[int, int] = {}
+    names: list[str] = []
 
-    def check(name: str, idx: int, mutate, expect_at) -> None:
-        bad = copy.deepcopy(pool)
-        mutate(bad[idx])
-        rej = validate_traces(ctx, "MC_SubPipeline", bad, "st_" + name.split("(")[0], invariants=[], strip=strip,
-                              count=False, constants=TRACE_CONSTANTS)
-        exp = {idx: expect_at(bad[idx])}
-        ctx.selftest(name, rej == exp, f"rejected={rej} expected={exp}")
+    def add(name: str, src: dict, mutate, at) -> None:
+        t = copy.deepcopy(src)
+        mutate(t)
+        expected[len(pool)] = at(t)
+        names.append(name)
+        pool.append(t)
 
     def alter_value(t):
         v = t["ev"][-1]["results"][0][1]
         while v["a"]:
             v = v["a"][0]
         v["f"] += "_x"
-    check("trace-corruption(one atom of one returned value)", 1, alter_value, lambda t: len(t["ev"]))
+    add("one atom of one returned value", good[1], alter_value, lambda t: len(t["ev"]))
 
     def extra_call(t):
         fs = [f for f in t["desc"]["funcs"] if f["name"] not in t["ev"][0]["F"]]
         f = fs[0] if fs else t["desc"]["funcs"][0]
-        e = with_request(pmap.ev(e="call", f=f["name"], kwargs=[[p, pcall.kv(p)] for p in f["params"]]), t["S"])
-        t["ev"].insert(1, e)
-    k = next((i for i, t in enumerate(good) if len(t["ev"][0]["F"]) < len(t["desc"]["funcs"])), 0)
-    check("trace-corruption(call of a function outside the needed set)", k, extra_call, lambda t: 2)
+        t["ev"].insert(1, with_request(pmap.ev(e="call", f=f["name"], kwargs=[[p, pcall.kv(p)] for p in f["params"]]),
+                                       t["S"]))
+    src = next((t for t in good if len(t["ev"][0]["F"]) < len(t["desc"]["funcs"])), good[0])
+    add("call of a function outside the needed set", src, extra_call, lambda t: 2)
 
     def alter_needed(t):
         others = [f["name"] for f in t["desc"]["funcs"] if f["name"] not in t["ev"][0]["F"]]
         t["ev"][0]["F"] = t["ev"][0]["F"] + others[:1] if others else t["ev"][0]["F"][1:]
-    check("export-corruption(needed set of one begin event)", 2, alter_needed, lambda t: 1)
+    add("exported needed set of one begin event", good[2], alter_needed, lambda t: 1)
 
     def wrong_name(t):
         t["ev"][-1]["named"] = [n for n, _ in t["inputs"]]
-    check("trace-corruption(rejection names a provided name, not the missing one)", len(good), wrong_name,
-          lambda t: len(t["ev"]))
+    add("rejection names a provided name, not the missing one", rejs[0], wrong_name, lambda t: len(t["ev"]))
+
+    rej = validate_traces(ctx, "MC_SubPipeline", pool, "selftest", invariants=[], strip=STRIP, count=False,
+                          constants=TRACE_CONSTANTS)
+    ctx.selftest("trace-corruption(" + "; ".join(names) + "): exactly the corrupted copies rejected, at the corrupted "
+                 "event", rej == expected, f"rejected={rej} expected={expected}")
 
 
 def replay(rep: dict) -> int:
